@@ -894,7 +894,7 @@ def run(ctx, prop):
                "subclass (request.request_handlers is replaced for the duration of a run only)")
     ctx.assume("the pipe is an in-memory object whose read(n) returns at most the rest of the current segment; "
                "'would block' = a read request larger than what remains of the current message")
-    core.fork_map(ctx, worker, sorted(cases, key=lambda c: -len(c["cuts"])), nproc=6 if ctx.quick else 16, chunks_per_proc=1)
+    core.fork_map(ctx, worker, sorted(cases, key=lambda c: -len(c["cuts"])), nproc=5 if ctx.quick else 16, chunks_per_proc=1)
     if SELFTEST_OK not in ctx.assumptions:
         ctx.machinery("no worker ran the binding self-test")
     if ctx.cov["traces_validated_against_impl"] != nseg:
